@@ -26,6 +26,7 @@ where
     /// representation invariant: both maps have room for every node, only nodes are stacked, finished nodes are
     /// discovered, and every discovered node that is not finished yet waits on the stack
     pub open spec fn pinv<G: IntoNeighbors<NodeId = N>>(&self, g: G) -> bool {
+        &&& g.inv()
         &&& forall|a: N| g.is_node(a) ==> #[trigger] self.discovered.holds(a)
         &&& forall|a: N| g.is_node(a) ==> #[trigger] self.finished.holds(a)
         &&& forall|i: int| 0 <= i < self.stack@.len() ==> g.is_node(#[trigger] self.stack@[i])
